@@ -99,7 +99,7 @@ def main():
     built = []
     for st in stages:
         ok, exe, msg = vlib.build_driver(st["driver"], st["config"], st["sources"],
-                                         extra_flags=st.get("flags", ()))
+                                         extra_flags=st.get("flags", ()), plain_sources=st.get("plain_sources", ()))
         if not ok:
             # the tree compiles for the project's own build but not for us: harness error, not a verdict
             cov = {"evaluations": 0, "distinct_nontrivial": 0, "rule": spec["rule"], "samples": [],
